@@ -143,6 +143,54 @@ MUTANTS = [
         "            product = list(transcript.qualifiers[\"product\"])[0]\n            # NCBI",
         "reverts fix c606951 at one site: product taken in set order",
     ),
+    (
+        "c11_exon_start_plus_one_dropped", "C11", G + "gene/transcript.py",
+        "                BioCantorFeatureTypes.EXON,\n                start + 1,\n",
+        "                BioCantorFeatureTypes.EXON,\n                start + 1 if i == 1 else start,\n",
+        "exon rows after the first are 0-based",
+    ),
+    (
+        "c11_cds_phase_from_wrong_block", "C11", G + "gene/cds.py",
+        "        for i, block, frame in zip(count(1), cds_blocks, frames):\n",
+        "        for i, block, frame in zip(count(1), cds_blocks, frames if self.strand == Strand.PLUS else frames[::-1]):\n",
+        "minus-strand CDS rows get the phases in reverse order",
+    ),
+    (
+        "c11_percent_not_escaped", "C11", G + "io/gff3/constants.py",
+        "ENCODING_MAP = {\"\\t\": \"%09\", \";\": \"%3B\", \"=\": \"%3D\", \"\\n\": \"%0A\", \"\\r\": \"%0D\", \">\": \"%3E\", \" \": \"%20\", \"%\": \"%25\"}",
+        "ENCODING_MAP = {\"\\t\": \"%09\", \";\": \"%3B\", \"=\": \"%3D\", \"\\n\": \"%0A\", \"\\r\": \"%0D\", \">\": \"%3E\", \" \": \"%20\"}",
+        "'%' removed from the escape map of qualifier values (still escaped in ID/Name)",
+    ),
+    (
+        "c11_writer_swallows_oserror", "C11", G + "io/gff3/writer.py",
+        "            print(item, file=gff3_handle)\n",
+        "            try:\n                print(item, file=gff3_handle)\n            except OSError:\n                break\n",
+        "writer stops silently on a write error",
+    ),
+    (
+        "c11_values_in_set_order", "C11", G + "io/gff3/rows.py",
+        "            escaped_val = ATTRIBUTE_SEPARATOR.join(sorted(escaped_vals))\n",
+        "            escaped_val = ATTRIBUTE_SEPARATOR.join(escaped_vals)\n",
+        "multi-valued attributes written in set iteration order (differs between hash seeds)",
+    ),
+    (
+        "c11_parser_cds_sorted_by_end_only", "C11", G + "io/gff3/parser.py",
+        "        cds = sorted(cds, key=lambda c: (c.start, c.end))\n        cds_starts = [x.start - 1 for x in cds]\n        cds_ends = [x.end for x in cds]\n",
+        "        cds = sorted(cds, key=lambda c: (c.start, c.end))\n        cds_starts = [x.start - 1 for x in cds]\n        cds_ends = [x.end for x in cds]\n        if strand == Strand.MINUS and len(cds) > 2:\n            cds = cds[::-1]\n",
+        "parser pairs minus-strand CDS blocks with frames in the wrong order when there are 3+ blocks",
+    ),
+    (
+        "c11_parser_unquote_reverted", "C11", G + "io/gff3/parser.py",
+        "        unquote(key): sorted(vals) for key, vals in qualifiers.items()",
+        "        key: sorted(vals) for key, vals in qualifiers.items()",
+        "reverts fix 8676706: qualifier keys come back percent-encoded",
+    ),
+    (
+        "c11_gene_name_from_locus_tag", "C11", G + "gene/gene.py",
+        "            name=self.gene_symbol,\n            parent=None,\n",
+        "            name=self.gene_symbol or self.locus_tag,\n            parent=None,\n",
+        "gene rows get Name=<locus tag> when the gene has no symbol",
+    ),
 ]
 
 # helper text appended for the mutant above (kept separate to keep the table readable)
